@@ -170,7 +170,31 @@ class Exec:
         self.serial = Exec._serial   # distinguishes the op names of different executors deterministically
 
     def node(self, k):
-        return self.handles[k]
+        """the node in one of the spellings a caller may hold it in, taken in turn: the handle the graph returned, a
+        bare Node(idx), the handle iteration yields, the one its parent's children() lists, one carrying other extras.
+        They are the same node to every store call (handles compare by index only)."""
+        from hugr import Node
+
+        base = self.handles[k]
+        self.uses = getattr(self, "uses", 0) + 1
+        how = self.uses % 5
+        if how == 1:
+            return Node(base.idx)
+        if how == 2:
+            return next((n for n in self.h if n.idx == base.idx), base)
+        if how == 3:
+            try:
+                p = self.h[base].parent
+            except KeyError:
+                return base
+            if p is not None:
+                return next((c for c in self.h.children(p) if c.idx == base.idx), base)
+        if how == 4:
+            try:
+                return Node(base.idx, {"other": "metadata"}, 7)
+            except TypeError:
+                return base
+        return base
 
     def step(self, st):
         from hugr import ops, tys, val
